@@ -1384,6 +1384,290 @@ impl<'r> G<'r> {
     }
 }
 
+// ------------------------------------------------------------------ Verilog-1995 subset (C13 regions)
+
+impl<'r> G<'r> {
+    fn v95_expr(&mut self, names: &[String], d: usize) {
+        let k = self.r.below(100);
+        if d > 2 || k < 40 || names.is_empty() {
+            if !names.is_empty() && self.r.chance(1, 2) {
+                let n = self.r.pick(names).clone();
+                self.id(&n);
+            } else {
+                self.nump(&["1", "0", "8'hFF", "4'b1x0z", "'d3", "12"]);
+            }
+        } else if k < 75 {
+            self.v95_expr(names, d + 1);
+            self.symp(&["+", "-", "*", "&", "|", "^", "==", "!=", "<", ">=", "&&", "||", "<<", ">>"]);
+            self.v95_expr(names, d + 1);
+        } else if k < 85 {
+            self.sym("(");
+            self.v95_expr(names, d + 1);
+            self.sym(")");
+        } else if k < 93 {
+            self.sym("{");
+            self.v95_expr(names, d + 1);
+            self.sym(",");
+            self.v95_expr(names, d + 1);
+            self.sym("}");
+        } else {
+            self.symp(&["~", "!", "-", "&", "|"]);
+            let n = self.r.pick(names).clone();
+            self.id(&n);
+        }
+    }
+
+    fn v95_stmt(&mut self, names: &[String], d: usize) {
+        let k = self.r.below(100);
+        if d > 2 || k < 35 {
+            let n = self.r.pick(names).clone();
+            self.id(&n);
+            self.symp(&["=", "<="]);
+            self.v95_expr(names, 1);
+            self.sym(";");
+        } else if k < 50 {
+            self.kw("if");
+            self.sym("(");
+            self.v95_expr(names, 1);
+            self.sym(")");
+            self.v95_stmt(names, d + 1);
+            if self.r.chance(1, 2) {
+                self.kw("else");
+                self.v95_stmt(names, d + 1);
+            }
+        } else if k < 65 {
+            self.kw("begin");
+            if self.r.chance(1, 2) {
+                let l = self.fresh(false);
+                self.sym(":");
+                self.decl(&l, "label");
+            }
+            // K6 steering: a `$display` first
+            self.kw("$display");
+            self.sym("(");
+            self.st("\"v\"");
+            self.sym(")");
+            self.sym(";");
+            let n = self.r.range(0, 2);
+            for _ in 0..n {
+                self.v95_stmt(names, d + 1);
+            }
+            self.kw("end");
+        } else if k < 75 {
+            self.kwp(&["case", "casez", "casex"]);
+            self.sym("(");
+            self.v95_expr(names, 1);
+            self.sym(")");
+            self.num("0");
+            self.sym(":");
+            self.v95_stmt(names, d + 1);
+            self.kw("default");
+            self.sym(":");
+            self.v95_stmt(names, d + 1);
+            self.kw("endcase");
+        } else if k < 82 {
+            self.kw("while");
+            self.sym("(");
+            self.v95_expr(names, 1);
+            self.sym(")");
+            self.v95_stmt(names, d + 1);
+        } else if k < 88 {
+            self.kw("repeat");
+            self.sym("(");
+            self.num("2");
+            self.sym(")");
+            self.v95_stmt(names, d + 1);
+        } else if k < 94 {
+            self.sym("#");
+            self.num("1");
+            self.v95_stmt(names, d + 1);
+        } else {
+            self.kw("forever");
+            self.sym("#");
+            self.num("1");
+            self.v95_stmt(names, d + 1);
+        }
+    }
+
+    /// one module in the IEEE 1364-1995 subset (valid under every keyword set)
+    fn v95_module(&mut self) {
+        let name = self.fresh(false);
+        self.kw("module");
+        self.decl(&name, "module");
+        let np = self.r.range(1, 3);
+        let mut ports = Vec::new();
+        self.sym("(");
+        for i in 0..np {
+            if i > 0 {
+                self.sym(",");
+            }
+            let p = self.fresh(false);
+            self.id(&p);
+            ports.push(p);
+        }
+        self.sym(")");
+        self.sym(";");
+        for p in ports.clone() {
+            self.kwp(&["input", "output", "inout"]);
+            if self.r.chance(1, 3) {
+                self.range();
+            }
+            self.decl(&p, "port");
+            self.sym(";");
+        }
+        let mut names = ports.clone();
+        let mut regs: Vec<String> = Vec::new();
+        let n = self.r.range(2, 7);
+        for _ in 0..n {
+            let k = self.r.below(100);
+            if k < 18 {
+                self.kwp(&["wire", "tri", "wand", "wor", "tri0", "tri1", "supply0", "supply1"]);
+                if self.r.chance(1, 2) {
+                    self.range();
+                }
+                let w = self.fresh(false);
+                self.decl(&w, "net");
+                self.sym(";");
+                names.push(w);
+            } else if k < 36 {
+                self.kwp(&["reg", "integer"]);
+                let v = self.fresh(false);
+                self.decl(&v, "var");
+                self.sym(";");
+                names.push(v.clone());
+                regs.push(v);
+            } else if k < 44 {
+                self.kw("parameter");
+                let p = self.fresh(false);
+                self.decl(&p, "param");
+                self.sym("=");
+                self.num("4");
+                self.sym(";");
+            } else if k < 58 {
+                self.kw("assign");
+                let n = self.r.pick(&names).clone();
+                self.id(&n);
+                self.sym("=");
+                self.v95_expr(&names, 0);
+                self.sym(";");
+            } else if k < 76 {
+                if self.r.chance(1, 2) {
+                    self.kw("always");
+                    self.sym("@");
+                    self.sym("(");
+                    self.kwp(&["posedge", "negedge"]);
+                    let n = self.r.pick(&names).clone();
+                    self.id(&n);
+                    self.sym(")");
+                } else {
+                    self.kw("initial");
+                }
+                let nn = names.clone();
+                self.v95_stmt(&nn, 0);
+            } else if k < 86 && !self.mods.is_empty() {
+                let mi = self.r.below(self.mods.len());
+                let (m, mp) = (self.mods[mi].name.clone(), self.mods[mi].ports.clone());
+                self.id(&m);
+                let inst = self.fresh(false);
+                self.decl(&inst, "inst");
+                self.sym("(");
+                for (i, p) in mp.iter().enumerate() {
+                    if i > 0 {
+                        self.sym(",");
+                    }
+                    self.sym(".");
+                    self.id(p);
+                    self.sym("(");
+                    let nn = names.clone();
+                    self.v95_expr(&nn, 1);
+                    self.sym(")");
+                }
+                self.sym(")");
+                self.sym(";");
+            } else if k < 93 {
+                let f = self.fresh(false);
+                let a = self.fresh(false);
+                self.kw("function");
+                self.range();
+                self.decl(&f, "func");
+                self.sym(";");
+                self.kw("input");
+                self.decl(&a, "tfport");
+                self.sym(";");
+                self.kw("begin");
+                self.kw("$display");
+                self.sym("(");
+                self.st("\"f\"");
+                self.sym(")");
+                self.sym(";");
+                self.id(&f);
+                self.sym("=");
+                self.id(&a);
+                self.sym(";");
+                self.kw("end");
+                self.kw("endfunction");
+            } else {
+                let t = self.fresh(false);
+                let a = self.fresh(false);
+                self.kw("task");
+                self.decl(&t, "task");
+                self.sym(";");
+                self.kw("output");
+                self.decl(&a, "tfport");
+                self.sym(";");
+                self.kw("begin");
+                self.kw("$display");
+                self.sym("(");
+                self.st("\"t\"");
+                self.sym(")");
+                self.sym(";");
+                self.id(&a);
+                self.sym("=");
+                self.num("1");
+                self.sym(";");
+                self.kw("end");
+                self.kw("endtask");
+            }
+        }
+        self.kw("endmodule");
+        self.mods.push(ModInfo { name, ports, params: vec![], is_interface: false });
+    }
+}
+
+/// A sequence of Verilog-1995 modules; `modules[i]` = token range of module i.
+pub struct V95Program {
+    pub toks: Vec<TokG>,
+    pub name_pos: Vec<NamePos>,
+    pub module_ranges: Vec<(usize, usize)>,
+}
+
+pub fn program_v95(rng: &mut Rng, nmods: usize) -> V95Program {
+    let mut g = G {
+        r: rng,
+        n: 0,
+        toks: Vec::new(),
+        facts: Vec::new(),
+        alt: Vec::new(),
+        name_pos: Vec::new(),
+        desc_starts: Vec::new(),
+        mods: Vec::new(),
+        typedefs: Vec::new(),
+        packages: Vec::new(),
+        opts: Opts { escaped_ids: false, ..Opts::default() },
+        k6_names: Vec::new(),
+        desc: 0,
+        counts: Default::default(),
+    };
+    let mut ranges = Vec::new();
+    for d in 0..nmods {
+        g.desc = d;
+        let s = g.toks.len();
+        g.v95_module();
+        ranges.push((s, g.toks.len()));
+    }
+    V95Program { toks: g.toks, name_pos: g.name_pos, module_ranges: ranges }
+}
+
 fn glue_ok(a: &TokG, b: &TokG) -> bool {
     if a.kind == TK::EscId {
         return false;
